@@ -61,9 +61,14 @@ func visible(c *core.Ctx, label string, lo, hi int) string {
 	b := make([]byte, n)
 	core.FillPattern(b, c.U64(label+".pat", 0, ^uint64(0)))
 	for i := range b {
-		b[i] = 0x21 + b[i]%0x5e // visible ASCII without space
-		if b[i] == ',' {
-			b[i] = '_'
+		b[i] = 0x21 + b[i]%0x5e // visible ASCII
+	}
+	// interior ", " and "," as in real list-valued fields (Cache-Control, dates)
+	if n >= 5 && c.Chance(label+".comma", 1, 3) {
+		k := c.Int(label+".commaAt", 1, n-3)
+		b[k] = ','
+		if c.Bool(label + ".commaSpace") {
+			b[k+1] = ' '
 		}
 	}
 	return string(b)
